@@ -160,6 +160,9 @@ class FrameItem(EFLRItem):
         if diff.size == 0:
             # a single row - neither spacing nor direction can be determined
             return None, None
+        if np.isnan(diff).any():
+            # undefined values in the index - a single difference of NaN must not be taken for a uniform spacing
+            return None, None
 
         diff_unique = np.unique(diff)
 
